@@ -374,3 +374,7 @@ impl<Storage: KalmanStorageInternal<C>, C: Clock> StateMutex<Storage, C>
         f(&mut self.borrow_mut())
     }
 }
+
+#[cfg(feature = "pendulum_project_ntpd_rs_verif")]
+#[path = "/verif/hooks/statime-algo/storage.rs"]
+pub mod vh_storage;
